@@ -96,6 +96,22 @@ func commitRule(c *Ctx, rule string, fn *ssa.Function, commit ssa.Value, at ssa.
 				}
 			}
 		}
+		// the file-size value survives only when the WAL holds no commit frame: every
+		// path to the use that bypasses the WAL-commit store passes a walCommit == 0 edge
+		uf := u.Parent()
+		avoid := map[*ssa.BasicBlock]bool{}
+		for _, b := range uf.Blocks {
+			for _, in := range b.Instrs {
+				if st, ok := in.(*ssa.Store); ok && cellOf(st.Addr) == ssa.Value(cell) && isWal(st.Val) {
+					avoid[b] = true
+				}
+			}
+		}
+		if len(avoid) > 0 {
+			if reachableAvoiding(uf, nil, cutEdges(uf, le...), avoid)[u.Block()] {
+				okAll, detail = false, "the database-file size is used as Commit on a path where the WAL may hold a commit frame (the bypass of the WAL-commit assignment is not conditioned on walCommit == 0)"
+			}
+		}
 	} else {
 		for _, inc := range incomings(commit) {
 			switch {
